@@ -62,15 +62,21 @@ func New(kind string) (Store, error) {
 type Ctl struct {
 	s *schema.Node
 	t *model.Tree
+	// Lenient makes reads tolerate stored text that does not convert.
+	Lenient bool
 }
 
-func (c *Ctl) Kind() string               { return "ctl" }
-func (c *Ctl) Caps() schema.Caps          { return schema.FullCaps() }
-func (c *Ctl) GenOpts() model.GenOpts     { return model.DefaultGen() }
-func (c *Ctl) ListsAsSets() bool          { return false }
-func (c *Ctl) ZeroIsUnset() bool          { return false }
-func (c *Ctl) RealCode() bool             { return false }
-func (c *Ctl) Root() node.Node            { return mnode.Tree(c.t) }
+func (c *Ctl) Kind() string           { return "ctl" }
+func (c *Ctl) Caps() schema.Caps      { return schema.FullCaps() }
+func (c *Ctl) GenOpts() model.GenOpts { return model.DefaultGen() }
+func (c *Ctl) ListsAsSets() bool      { return false }
+func (c *Ctl) ZeroIsUnset() bool      { return false }
+func (c *Ctl) RealCode() bool         { return false }
+func (c *Ctl) Root() node.Node {
+	n := mnode.Tree(c.t)
+	n.Lenient = c.Lenient
+	return n
+}
 func (c *Ctl) Walk() (*model.Tree, error) { return c.t.Clone(), nil }
 func (c *Ctl) Load(s *schema.Node, t *model.Tree) error {
 	c.s = s
